@@ -252,11 +252,85 @@ impl Span {
     }
 }
 
-#[derive(Debug, Clone, PartialEq)]
+#[derive(Debug)]
 pub(crate) enum SpanInfo {
     Prim(Span),
     Cons(Span, Box<[SpanInfo; 2]>),
     Vec(Span, Vec<SpanInfo>),
+}
+
+// The information for a list mirrors the chain of cons cells. `Clone`,
+// `PartialEq` and `Drop` walk that chain in a loop, as the corresponding
+// implementations for `Cons` do, so that long lists do not need stack space
+// proportional to their length.
+impl Clone for SpanInfo {
+    fn clone(&self) -> Self {
+        fn cell(span: &Span, car: &SpanInfo) -> SpanInfo {
+            SpanInfo::Cons(
+                *span,
+                Box::new([car.clone(), SpanInfo::Prim(Span::empty())]),
+            )
+        }
+        match self {
+            SpanInfo::Prim(span) => SpanInfo::Prim(*span),
+            SpanInfo::Vec(span, elements) => SpanInfo::Vec(*span, elements.clone()),
+            SpanInfo::Cons(span, info) => {
+                let mut head = cell(span, &info[0]);
+                let mut last = &mut head;
+                let mut rest = &info[1];
+                while let SpanInfo::Cons(span, info) = rest {
+                    last = match last {
+                        SpanInfo::Cons(_, slots) => {
+                            slots[1] = cell(span, &info[0]);
+                            &mut slots[1]
+                        }
+                        _ => unreachable!(),
+                    };
+                    rest = &info[1];
+                }
+                if let SpanInfo::Cons(_, slots) = last {
+                    slots[1] = rest.clone();
+                }
+                head
+            }
+        }
+    }
+}
+
+impl PartialEq for SpanInfo {
+    fn eq(&self, other: &SpanInfo) -> bool {
+        let (mut a, mut b) = (self, other);
+        loop {
+            match (a, b) {
+                (SpanInfo::Prim(x), SpanInfo::Prim(y)) => return x == y,
+                (SpanInfo::Vec(x, xs), SpanInfo::Vec(y, ys)) => return x == y && xs == ys,
+                (SpanInfo::Cons(x, xs), SpanInfo::Cons(y, ys)) => {
+                    if x != y || xs[0] != ys[0] {
+                        return false;
+                    }
+                    a = &xs[1];
+                    b = &ys[1];
+                }
+                _ => return false,
+            }
+        }
+    }
+}
+
+impl Drop for SpanInfo {
+    fn drop(&mut self) {
+        let unlink = |info: &mut SpanInfo| match info {
+            SpanInfo::Cons(_, slots) => Some(std::mem::replace(
+                &mut slots[1],
+                SpanInfo::Prim(Span::empty()),
+            )),
+            _ => None,
+        };
+        let mut next = unlink(self);
+        while let Some(mut info) = next {
+            next = unlink(&mut info);
+        }
+    }
 }
 
 impl SpanInfo {
